@@ -1,4 +1,5 @@
 import GcArena.Proofs.Quiet
+import GcArena.Proofs.Exact
 /-!
 # C07 — Finalization: dead means unreachable, resurrection holds for the cycle
 
@@ -81,23 +82,81 @@ theorem sweep_waits_for_queue (c : Ctx) (root : List Slot) (h : c.grayRemaining 
     c.micro root .toSweep = none := by
   simp [Ctx.micro, h]
 
-/-- Full statement of "exact if unmutated", kept visible; proof pending (needs the exactness
-    invariant of C02: gray/black ⇒ strongly reachable when no mutator step intervened). -/
-def marked_exact_statement : Prop :=
+/-- "Exact if unmutated", general form: in any fully marked state reached from a sleeping state
+    satisfying the invariant by collector micro-steps alone — any number of them, *including*
+    `mark_one` calls whose `trace` unwinds part-way — an allocated object reports `is_dead`
+    exactly when it is not strongly reachable from the root.  (Tightness invariant of
+    Proofs/Tight: gray/black ⇒ strongly reachable while no mutator step intervenes.) -/
+theorem marked_exact_of_micros {c0 c : Ctx} {root : List Slot} (h0 : CInv c0 root [])
+    (hsl : c0.phase = .sleep) (ms : List Micro) (hs : c0.micros root ms = some c)
+    (hm : Arena.isMarked c = true) (i : Nat) (o : Obj) (ho : c.heap.get i = some o) :
+    isDead c i ↔ ¬ StrongReachC c root i := by
+  have hc : CInv c root [] := micros_inv ms h0 hs
+  have hph : c.phase = .mark := by
+    simp only [Arena.isMarked, Bool.and_eq_true, decide_eq_true_eq] at hm
+    exact hm.1
+  have T : Tight c root := micros_tight ms h0 (fun hne => absurd hsl hne) hs (by rw [hph]; simp)
+  constructor
+  · rintro ⟨o1, ho1, hcol⟩ hr
+    obtain ⟨o2, ho2, hb⟩ := reachable_black hc hm hr
+    rw [ho1] at ho2; cases ho2
+    rw [hb] at hcol; rcases hcol with hcol | hcol <;> cases hcol
+  · intro hnr
+    refine ⟨o, ho, ?_⟩
+    cases hcol : o.color with
+    | white => exact Or.inl rfl
+    | whiteWeak => exact Or.inr rfl
+    | gray => exact absurd ((T.tm i o ho).1 (Or.inl hcol)) hnr
+    | black => exact absurd ((T.tm i o ho).1 (Or.inr hcol)) hnr
+
+/-- **Exact if unmutated** (proved, statement as originally posed; its last two hypotheses — the
+    steps after the wake-up are mark steps, none faulted at slot 0 — turn out not to be needed,
+    see `marked_exact_of_micros`). -/
+theorem marked_exact :
   ∀ (n : Nat) (pre : List Op) (ms : List Micro) (c : Ctx),
     let a := (Arena.new n).run pre
     a.alive = true → a.cb = none → a.ctx.phase = .sleep →
     a.ctx.micros a.root (.wake :: ms) = some c → Arena.isMarked c = true →
     (∀ m, m ∈ ms → ∃ f, m = .markStep f ∨ m = .markBreak) → (∀ m, m ∈ ms → m ≠ .markStep (some 0)) →
-    ∀ i o, c.heap.get i = some o → (isDead c i ↔ ¬ StrongReachC c a.root i)
+    ∀ i o, c.heap.get i = some o → (isDead c i ↔ ¬ StrongReachC c a.root i) := by
+  intro n pre ms c a halive hcb hsl hs hm _ _ i o ho
+  have hinv : Inv a := inv_run n pre halive
+  have h0 : CInv a.ctx a.root [] := by
+    have := hinv.cinv; rw [hinv.cbTemps hcb] at this; exact this
+  exact marked_exact_of_micros h0 hsl (.wake :: ms) hs hm i o ho
 
-/-- Full statement of "resurrection protects the closure for the cycle"; proof pending (needs
-    colour monotonicity of every mark-phase step up to the next `Mark → Sweep` switch). -/
-def resurrect_protects_statement : Prop :=
+/-- **Resurrection protects for the cycle** (proved): an object that is gray or black in the
+    mark phase — in particular one just resurrected (`resurrect_queues`) — is, in every sweep-phase
+    state the collector reaches before the cycle's `Sweep → Sleep` switch, allocated, undestructed
+    and out of the sweep's reach, whether or not a pointer to it was stored anywhere. -/
+theorem resurrect_protects :
   ∀ (a : Arena) (t : Nat) (ms : List Micro) (c : Ctx), Inv a → a.cb = none → a.ctx.phase = .mark →
     (∃ o, a.ctx.heap.get t = some o ∧ (o.color = .gray ∨ o.color = .black)) →
     a.ctx.micros a.root ms = some c → c.phase = .sweep → (∀ m, m ∈ ms → m ≠ .toSleep true ∧ m ≠ .toSleep false) →
-    Safe c t
+    Safe c t := by
+  intro a t ms c hinv hcb hp hmk hs hsw hno
+  have h0 : CInv a.ctx a.root [] := by
+    have := hinv.cinv; rw [hinv.cbTemps hcb] at this; exact this
+  have hno' : ∀ m, m ∈ ms → ∀ b, m ≠ .toSleep b := by
+    intro m hm b
+    cases b
+    · exact (hno m hm).2
+    · exact (hno m hm).1
+  rcases micros_prot ms h0 hs hno' (Or.inl ⟨hp, hmk⟩) with ⟨hpm, _⟩ | ⟨_, hsafe⟩
+  · rw [hsw] at hpm; cases hpm
+  · exact hsafe
+
+/-- …and so is everything strongly reachable from it in that state (the closure). -/
+theorem resurrect_protects_closure (a : Arena) (t : Nat) (ms : List Micro) (c : Ctx) (hinv : Inv a)
+    (hcb : a.cb = none) (hp : a.ctx.phase = .mark)
+    (hmk : ∃ o, a.ctx.heap.get t = some o ∧ (o.color = .gray ∨ o.color = .black))
+    (hs : a.ctx.micros a.root ms = some c) (hsw : c.phase = .sweep)
+    (hno : ∀ m, m ∈ ms → m ≠ .toSleep true ∧ m ≠ .toSleep false) :
+    ∀ j, AccessibleC c [] [Ptr.strong t] j → Safe c j := by
+  have h0 : CInv a.ctx a.root [] := by
+    have := hinv.cinv; rw [hinv.cbTemps hcb] at this; exact this
+  intro j hj
+  exact safe_closure (micros_inv ms h0 hs) (resurrect_protects a t ms c hinv hcb hp hmk hs hsw hno) hj
 
 /-! ### Non-vacuity -/
 
@@ -113,5 +172,82 @@ example : ((Arena.new 2).run demo).alive = true := by decide
 example : Arena.isMarked ((Arena.new 2).run (demo.take 8)).ctx = true := by decide
 example : (((Arena.new 2).run (demo.take 11)).step (.isDead (.weak 1))).2 = "true" := by decide
 example : ((Arena.new 2).run demo).collectionPhase = "Marking" := by decide
+
+/-! ### Non-vacuity of `marked_exact` and `resurrect_protects` -/
+
+/-- The state of `demo` before the collection call (asleep, outside callbacks). -/
+def sleeping : Arena := (Arena.new 2).run (demo.take 7)
+
+def markSteps : List Micro := [.markStep none, .markStep none, .markBreak]
+
+theorem sleeping_marks : (sleeping.ctx.micros sleeping.root (.wake :: markSteps)).isSome = true := by decide
+
+/-- The fully marked state the micro-steps lead to. -/
+def markedCtx : Ctx := (sleeping.ctx.micros sleeping.root (.wake :: markSteps)).get sleeping_marks
+
+/-- All hypotheses of `marked_exact` hold for `demo`; its conclusion then says: the unreachable,
+    weakly held object 1 reports dead, the reachable object 0 does not. -/
+example : isDead markedCtx 1 ∧ ¬ isDead markedCtx 0 := by
+  have hroot : sleeping.root = [some (.strong 0), none] := by decide
+  have h0 : markedCtx.heap.get 0 = some ⟨.black, true, true, [some (.weak 1)]⟩ := by decide
+  have h1 : markedCtx.heap.get 1 = some ⟨.whiteWeak, true, true, [none]⟩ := by decide
+  have reach : ∀ j, StrongReachC markedCtx sleeping.root j → j = 0 := by
+    intro j hj
+    induction hj with
+    | root t ht => rw [hroot] at ht; simpa using ht
+    | temp t ht => cases ht
+    | edge i t _ e ih =>
+      subst ih
+      obtain ⟨o, ho, hs⟩ := e
+      rw [h0] at ho; cases ho
+      simp at hs
+  have hms : ∀ m, m ∈ markSteps → ∃ f, m = Micro.markStep f ∨ m = Micro.markBreak := by
+    intro m hm
+    simp only [markSteps, List.mem_cons, List.not_mem_nil, or_false] at hm
+    rcases hm with rfl | rfl | rfl
+    · exact ⟨none, Or.inl rfl⟩
+    · exact ⟨none, Or.inl rfl⟩
+    · exact ⟨none, Or.inr rfl⟩
+  have key := marked_exact 2 (demo.take 7) markSteps markedCtx (by decide) (by decide) (by decide)
+    (Option.some_get sleeping_marks).symm (by decide) hms (by decide)
+  refine ⟨(key 1 _ h1).mpr (fun hr => by cases reach 1 hr), fun hd => (key 0 _ h0).mp hd ?_⟩
+  exact .root 0 (by decide)
+
+/-- `demo` continued: the finalizer callback returns *without storing* the resurrected pointer. -/
+def resurrected : Arena := (Arena.new 2).run (demo ++ [.leave])
+
+def toSweepSteps : List Micro := [.markStep none, .markBreak, .toSweep]
+
+theorem resurrected_sweeps :
+    (resurrected.ctx.micros resurrected.root toSweepSteps).isSome = true := by decide
+
+def sweepingCtx : Ctx := (resurrected.ctx.micros resurrected.root toSweepSteps).get resurrected_sweeps
+
+/-- All hypotheses of `resurrect_protects` hold: object 1 was resurrected (it is gray), it is
+    still not strongly reachable from the root, and yet the sweep that follows will not touch it. -/
+example : Safe sweepingCtx 1 := by
+  have hinv : Inv resurrected := by
+    unfold resurrected
+    exact inv_run 2 _ (by decide)
+  have hgray : resurrected.ctx.heap.get 1 = some ⟨.gray, true, true, [none]⟩ := by decide
+  exact resurrect_protects resurrected 1 toSweepSteps sweepingCtx hinv (by decide) (by decide)
+    ⟨_, hgray, Or.inl rfl⟩ (Option.some_get resurrected_sweeps).symm (by decide) (by decide)
+
+/-- Object 1 is indeed not strongly reachable there (the root holds 0, which holds 1 only weakly). -/
+example : ¬ StrongReachC sweepingCtx resurrected.root 1 := by
+  have hroot : resurrected.root = [some (.strong 0), none] := by decide
+  have h0 : sweepingCtx.heap.get 0 = some ⟨.black, true, true, [some (.weak 1)]⟩ := by decide
+  have reach : ∀ j, StrongReachC sweepingCtx resurrected.root j → j = 0 := by
+    intro j hj
+    induction hj with
+    | root t ht => rw [hroot] at ht; simpa using ht
+    | temp t ht => cases ht
+    | edge i t _ e ih =>
+      subst ih
+      obtain ⟨o, ho, hs⟩ := e
+      rw [h0] at ho; cases ho
+      simp at hs
+  intro hr
+  cases reach 1 hr
 
 end GcArena.C07
